@@ -309,6 +309,8 @@ def family(thorough: bool):
     # ---- nesting 1 -----------------------------------------------------------------------
     add("L1.carr", carrs(A, (1, 2, 3)))
     add("L1.sarr", sarrs(A))
+    add("L1.rec1", (("rec", (a,), (1,)) for a in A))          # single-field records
+    add("L1.sarr", sarrs(A, (1,)))                            # one-element std.Array
     add("L1.rec2", recs(A, (2,)))
     add("L1.rec3", recs(ATOMS_SMALL + (S2,) if not thorough else ATOMS_MID + (FLAG_BV3, SFIX_1_m1), (3,)))
     if not thorough:
